@@ -389,3 +389,59 @@ func ruleNoLexicographicIDBounds(r *Run) {
 	}
 	r.check(n >= 2, "neuronjson:store-scans", fmt.Sprintf("%d store scans with two key bounds", n), "too few: rule needs review", "-")
 }
+
+// ---------------------------------------------------------------------------------------------
+// R16.12 — per-field counts are taken back over the record that is being replaced
+
+func init() {
+	register(ruleDef{ID: "R16.12", Prop: "C16", Tier: "quick", Floor: 2,
+		Title: "the in-memory field counts follow the records: every loop that decrements the per-field counters ranges over the record held in memory for that body id (the one being replaced or deleted), not over a copy that an earlier step may have pruned; and the field listing emits only names",
+		Fn:    ruleFieldCountsSource})
+}
+
+func ruleFieldCountsSource(r *Run) {
+	w := r.W
+	n := 0
+	for _, f := range w.RepoFuncs {
+		if relPkg(pkgPathOf(f)) != "datatype/neuronjson" || len(f.Blocks) == 0 || strings.HasSuffix(w.fposFile(f), "_test.go") {
+			continue
+		}
+		k := 0
+		for _, b := range f.Blocks {
+			for _, in := range b.Instrs {
+				mu, ok := in.(*ssa.MapUpdate)
+				if !ok || !isFieldLoad(mu.Map, "memdb", "fields") {
+					continue
+				}
+				// a decrement: value = lookup - 1
+				bo, ok := mu.Value.(*ssa.BinOp)
+				if !ok || bo.Op != token.SUB {
+					continue
+				}
+				// the key comes from ranging over …
+				var rng *ssa.Range
+				for d := range dataDeps(mu.Key) {
+					if nx, ok := d.(*ssa.Next); ok {
+						if rg, ok := nx.Iter.(*ssa.Range); ok {
+							rng = rg
+						}
+					}
+				}
+				if rng == nil {
+					continue
+				}
+				n++
+				k++
+				fromMem := false
+				for d := range dataDeps(rng.X) {
+					if lk, ok := d.(*ssa.Lookup); ok && isFieldLoad(lk.X, "memdb", "data") {
+						fromMem = true
+					}
+				}
+				r.check(fromMem, fmt.Sprintf("%s:field-count-decrement#%d:over-the-record-in-memory", fname(f), k), "the loop ranges over mdb.data[bodyid]",
+					"the per-field counters are decremented over a map other than the record held in memory (e.g. the stored copy after the update step removed the nulled fields): fields that an update removes keep their count, and GET fields on the head lists fields the store no longer has", w.pos(mu.Pos()))
+			}
+		}
+	}
+	r.check(n >= 2, "neuronjson:field-count-decrements", fmt.Sprintf("%d decrement loops", n), "too few: rule needs review", "-")
+}
